@@ -287,13 +287,13 @@ func (e *Engine) arithBV(st *State, op token.Token, a, b Value, t types.Type, p 
 	case token.MUL:
 		return Value{sx("bvmul", a.T, b.T), t}
 	case token.QUO:
-		e.oblige(st, "div", not(eq(b.T, zero)), p, "division by zero")
+		e.divOblige(st, not(eq(b.T, zero)), p)
 		if u {
 			return Value{sx("bvudiv", a.T, b.T), t}
 		}
 		return Value{sx("bvsdiv", a.T, b.T), t}
 	case token.REM:
-		e.oblige(st, "div", not(eq(b.T, zero)), p, "division by zero")
+		e.divOblige(st, not(eq(b.T, zero)), p)
 		if u {
 			return Value{sx("bvurem", a.T, b.T), t}
 		}
@@ -391,4 +391,15 @@ func (e *Engine) convBV(v Value, fb, tb *types.Basic, to types.Type) Value {
 		}
 		return Value{fmt.Sprintf("((_ sign_extend %d) %s)", tw-fw, v.T), to}
 	}
+}
+
+// divOblige records the division-by-zero obligation, unless the unit declares that the native panic on a zero
+// divisor is its intended behaviour (`opt divpanics ok`: the VM's division clauses, classified by convertPanic);
+// the path continues under the assumption of a non-zero divisor.
+func (e *Engine) divOblige(st *State, nonzero string, p token.Pos) {
+	if e.c != nil && e.c.Opts["divpanics"] != "" {
+		st.pc = and(st.pc, nonzero)
+		return
+	}
+	e.oblige(st, "div", nonzero, p, "division by zero")
 }
